@@ -22,6 +22,10 @@ type rewrite struct {
 	pre  func(r *Rng) string // text placed before the root
 }
 
+var leadingComments = []string{"<!-- a comment -->\n", "\n\n  \n", "<!-- c1 --><!-- c2 -->\n\n", "\r\n<!-- multi\nline\ncomment -->\r\n", "  <!-- x --> \t\n",
+	// punctuation a scanner could mistake for markup: unpaired quotes, angle brackets, ampersands
+	"<!-- generated file, don't edit -->\n", "<!-- 15\" banner -->\n", "<!-- a & b < c > d -->\n", "<!-- it's \"x\" & <mj-text> -->\n"}
+
 func rewrites() []rewrite {
 	return []rewrite{
 		{"indent-lf", func(r *Rng) PrintOpts { return PrintOpts{Indent: true, Newline: "\n"} }, nil},
@@ -32,7 +36,7 @@ func rewrites() []rewrite {
 		{"single-quotes", func(r *Rng) PrintOpts { return PrintOpts{Quote: '\''} }, nil},
 		{"self-closing", func(r *Rng) PrintOpts { return PrintOpts{SelfClose: true} }, nil},
 		{"leading-comment", func(r *Rng) PrintOpts { return PrintOpts{} }, func(r *Rng) string {
-			return r.Pick([]string{"<!-- a comment -->\n", "\n\n  \n", "<!-- c1 --><!-- c2 -->\n\n", "\r\n<!-- multi\nline\ncomment -->\r\n", "  <!-- x --> \t\n"})
+			return r.Pick(leadingComments)
 		}},
 		{"combined", func(r *Rng) PrintOpts {
 			return PrintOpts{Indent: true, Newline: r.Pick([]string{"\n", "\r\n"}), AttrPerm: func(n int) []int { return r.Perm(n) },
@@ -70,6 +74,19 @@ func runC12(res *Result, tier string, seed int64, replay string) {
 		d := genRich(NewRng(seed, fmt.Sprintf("c12/%d", i)), &RichOpts{Head: true, MaxAttrs: 4, Features: true, CSSInline: true})
 		docs = append(docs, doc{fmt.Sprintf("gen:%d", i), d, d.MJML()})
 	}
+	// documents whose text and attribute values carry what the textual pre-passes rewrite: raw ampersands, named and numeric
+	// character references, quotes inside attribute values
+	leafDocs := [][]*Node{
+		{{Tag: "mj-text", Text: "Fish & Chips &rarr; caf&eacute; &amp; more &#169; &#x2014;"}},
+		{(&Node{Tag: "mj-button", Text: "Go &amp; see &#169;"}).Set("href", "http://x/?a=1&b=2&c=3")},
+		{(&Node{Tag: "mj-image"}).Set("src", "http://x/i.png?w=1&h=2").Set("alt", "big &amp; small"), {Tag: "mj-text", Text: "a &lt; b"}},
+		{{Tag: "mj-text", Text: `<a href="http://x/?q=1&r=2">l&ouml;nk</a> it's`}, {Tag: "mj-raw", Text: "<p>x & y</p>"}},
+	}
+	for i, leaves := range leafDocs {
+		col := &Node{Tag: "mj-column", Kids: leaves}
+		nd := &Node{Tag: "mjml", Kids: []*Node{{Tag: "mj-body", Kids: []*Node{{Tag: "mj-section", Kids: []*Node{col}}}}}}
+		docs = append(docs, doc{fmt.Sprintf("entities:%d", i), nd, nd.MJML()})
+	}
 	rws := rewrites()
 	// sequential: documents carry different heads (see C07)
 	for i, d := range docs {
@@ -98,6 +115,21 @@ func runC12(res *Result, tier string, seed int64, replay string) {
 				res.Violate(Violation{Sig: "rewrite-changes-output|" + rw.name, Kind: "input",
 					What:  fmt.Sprintf("rewrite %s changes the output at offset %d: …%s… vs original …%s… (errors %q vs %q)", rw.name, at, around(a, at), around(b, at), gerr, berr),
 					Input: map[string]string{"source": d.src, "variant": v, "rewrite": rw.name}})
+			}
+		}
+		// the entity documents get every leading comment, not a sampled one
+		if strings.HasPrefix(d.name, "entities:") {
+			for ci, pre := range leadingComments {
+				got, gerr := renderSeq(pre + d.src)
+				res.Case(d.src+"|leading-comment-all|"+fmt.Sprint(ci), true)
+				res.Count("rewrite=leading-comment(exhaustive)")
+				if canonWS(alphaIDs(got)) != canonWS(alphaIDs(base)) || gerr != berr {
+					a, b := canonWS(alphaIDs(got)), canonWS(alphaIDs(base))
+					at := firstDiff(a, b)
+					res.Violate(Violation{Sig: "rewrite-changes-output|leading-comment", Kind: "input",
+						What:  fmt.Sprintf("leading comment %q changes the output at offset %d: …%s… vs original …%s… (errors %q vs %q)", pre, at, around(a, at), around(b, at), gerr, berr),
+						Input: map[string]string{"source": d.src, "variant": pre + d.src, "rewrite": "leading-comment"}})
+				}
 			}
 		}
 		// debug tags
